@@ -12,10 +12,12 @@ def field(fname):
     return lambda name: ExtMethod(name, returns_field=fname)
 
 
-def ext_class(name, fields=None, **methods):
+def ext_class(name, fields=None, dynamic=None, stable_fields=(), **methods):
     ms = {}
     for mname, mk in methods.items():
         ms[mname] = mk(mname) if callable(mk) and not isinstance(mk, ExtMethod) else mk
     e = ExtClass(name, ms, fields or {})
+    e.dynamic = dynamic
+    e.stable_fields = tuple(stable_fields)
     register_ext(e)
     return e
